@@ -126,13 +126,16 @@ def _two(kind1, kind2, t_p, t1, tail1, t2, want_region):
     return done(_judge(body, p))
 
 
-def pretty_two(kind1: int, kind2: int, t_p: Optional[str], tail1: Optional[str], t2: Optional[str]) -> bool:
+KIND1 = int(os.environ.get("VERIF_KIND1", "0"))  # kind of the first child (concrete per process)
+
+
+def pretty_two(kind2: int, t_p: Optional[str], tail1: Optional[str], t2: Optional[str]) -> bool:
     """
-    pre: 0 <= kind1 <= 4 and 0 <= kind2 <= 4 and ok_str(t_p) and ok_str(tail1) and ok_str(t2)
+    pre: 0 <= kind2 <= 4 and ok_str(t_p) and ok_str(tail1) and ok_str(t2)
     post: _
     """
     # text + two children, outside the known-finding region
-    return _two(kind1, kind2, t_p, None, tail1, t2, False)
+    return _two(KIND1, kind2, t_p, None, tail1, t2, False)
 
 
 def pretty_two_region(kind1: int, kind2: int, t_p: Optional[str], tail1: Optional[str], t2: Optional[str]) -> bool:
